@@ -274,6 +274,56 @@ func c07FaultScenario(bt baseTrace, p int, deadline bool, other int) cwScenario 
 	return sc
 }
 
+// c07OpenCancel: the cancellation lands INSIDE NewStream's transport Write ("prefix one half"): right after the transport
+// accepted the opener (explicit cancel / the deadline passing there), or while that Write is held up by back-pressure.
+// Expected: the reset reaches the server, or the opener never does. Not a state of Model/Client.v (mode e2efree:
+// judged by the predicates only, c07_open_cancel).
+func c07OpenCancel(kind, at string, other int, ctxk string) cwScenario {
+	var steps []Step
+	c := 0
+	switch other {
+	case 1:
+		steps = append(steps, Step{Op: "open", Kind: "Bidi"}, Step{Op: "c2s"}, Step{Op: "send", C: 0, B: 90}, Step{Op: "c2s"},
+			hop(0, HOp{Op: "recv"}), hop(0, HOp{Op: "send", B: 91}), Step{Op: "s2c"}, Step{Op: "recv", C: 0})
+		c = 1
+	case 2:
+		steps = append(steps, Step{Op: "unary", B: 95, Gate: true}, Step{Op: "c2s"})
+		c = 1
+	}
+	open := Step{Op: "open", Kind: kind, At: at, Ctx: ctxk}
+	if at == "after-write-deadline" {
+		open.D = 800
+	}
+	steps = append(steps, open, Step{Op: "drain"}, Step{Op: "recv", C: c}, Step{Op: "send", C: c, B: 40}, Step{Op: "drain"})
+	switch other {
+	case 1:
+		steps = append(steps, Step{Op: "send", C: 0, B: 92}, Step{Op: "c2s"}, hop(0, HOp{Op: "recv"}), hop(0, HOp{Op: "send", B: 93}),
+			Step{Op: "s2c"}, Step{Op: "recv", C: 0}, Step{Op: "closesend", C: 0}, Step{Op: "c2s"}, hop(0, HOp{Op: "recv"}),
+			hop(0, HOp{Op: "return"}), Step{Op: "s2c"}, Step{Op: "recv", C: 0})
+	case 2:
+		steps = append(steps, Step{Op: "hu", B: 95}, Step{Op: "drain"})
+	}
+	return cwScenario{Mode: "e2efree", Steps: steps, Tags: []string{"c07", "kind:" + kind, "cancel-inside-open-write:" + at,
+		fmt.Sprintf("other:%d", other), "ctx:" + ctxk}}
+}
+
+func c07OpenCancelScenarios() []cwScenario {
+	var out []cwScenario
+	for _, kind := range []string{"Bidi", "CStream", "SStream"} {
+		for _, at := range []string{"after-write", "after-write-deadline", "blocked"} {
+			for other := 0; other <= 2; other++ {
+				for _, ctxk := range []string{"cancel", "cause", "parent"} {
+					if at == "after-write-deadline" && ctxk == "parent" {
+						ctxk = "timeoutcause"
+					}
+					out = append(out, c07OpenCancel(kind, at, other, ctxk))
+				}
+			}
+		}
+	}
+	return out
+}
+
 // ---------------------------------------------------------------- C11
 
 func bodyEnv(call int, b int64) *EnvSpec {
